@@ -350,9 +350,15 @@ def vc_indexing(H):
                     exp_vals = Rec('item', container, (slice(None),) + tuple(it))
                 else:
                     exp_vals = type(container)(Rec('item', v, it) for v in vals)
-                ok = (isinstance(r, Rec) and r.kind == 'call' and same(r.parts[0], fk) and same(tuple(r.parts[1]), (alg,))
-                      and same(r.parts[2].get('keys'), keys) and same(r.parts[2].get('values'), exp_vals)
-                      and (branch == 'ndarray' or type(r.parts[2].get('values')) is type(container)))
+                if not (isinstance(r, Rec) and r.kind == 'call' and same(r.parts[0], fk)):
+                    raise OutOfSubset('__getitem__: the result is not built by self.__class__.fromkeysvalues(..) (contract does not apply)')
+                # fromkeysvalues(algebra, keys, values) with positional or keyword arguments
+                pos = list(r.parts[1])
+                argd = dict(zip(('algebra', 'keys', 'values'), pos))
+                argd.update(r.parts[2])
+                ok = (len(pos) <= 3 and set(argd) == {'algebra', 'keys', 'values'} and same(argd['algebra'], alg)
+                      and same(argd['keys'], keys) and same(argd['values'], exp_vals)
+                      and (branch == 'ndarray' or type(argd['values']) is type(container)))
                 ctx.oblige('getitem: same keys; every coefficient indexed with the same item, order kept', bool(ok),
                            meta={'got': repr(r), 'expected_values': repr(exp_vals)})
                 ctx.oblige('getitem: nothing is written', not [e for e in ctx.events if e[0] in ('setitem', 'setattr')])
